@@ -21,6 +21,7 @@ func init() {
 		Run: func(c *Ctx) {
 			runC11Global(c, "C11")
 			runC11Pool(c, "C11")
+			runPoolReleaseLast(c, "C11-POOL")
 			runLock(c, "C11-LRU")
 			importRules(c, "C08", runC08, "C11-CACHE", "entries of the shared type cache are complete when published and never written afterwards (rules C08-PUBLISH, C08-COPY): concurrent validations of one type read the same immutable entry", 2, ruleIn("C08-PUBLISH", "C08-COPY"))
 		},
@@ -34,6 +35,7 @@ func init() {
 		Trusted: []string{"go/types", "go/ssa"},
 		Run: func(c *Ctx) {
 			runC11Pool(c, "C12")
+			runPoolReleaseLast(c, "C12-POOL")
 			runC11Global(c, "C12")
 			runC12Cache(c)
 			runC12Unsafe(c)
@@ -149,6 +151,127 @@ func runC11Global(c *Ctx, prop string) {
 					if calleeName(&x.Call) == "builtin.delete" && len(x.Call.Args) > 0 {
 						if g := globalBase(x.Call.Args[0], 0); g != nil {
 							writes[g] = append(writes[g], gw{fn, x.Pos(), "deletes from the map"})
+						}
+					}
+				}
+			}
+		}
+	}
+	// objects reached from a global and mutated through their methods (var shared = NewX();
+	// shared.Push(..)): the variable is never reassigned, yet its referent is shared mutable state
+	{
+		memo := map[*ssa.Function]int{} // 0 unknown, 1 computing, 2 no, 3 yes
+		var mutates func(fn *ssa.Function) bool
+		mutates = func(fn *ssa.Function) bool {
+			if fn == nil || len(fn.Params) == 0 || fn.Blocks == nil {
+				return false
+			}
+			switch memo[fn] {
+			case 1, 2:
+				return false
+			case 3:
+				return true
+			}
+			memo[fn] = 1
+			recv := fn.Params[0]
+			rooted := func(a ssa.Value) bool {
+				for d := 0; d < 8; d++ {
+					switch x := a.(type) {
+					case *ssa.FieldAddr:
+						a = x.X
+					case *ssa.IndexAddr:
+						a = x.X
+					case *ssa.UnOp:
+						a = x.X
+					default:
+						return a == recv
+					}
+				}
+				return false
+			}
+			res := false
+			for _, b := range fn.Blocks {
+				for _, ins := range b.Instrs {
+					switch x := ins.(type) {
+					case *ssa.Store:
+						if x.Addr != recv && rooted(x.Addr) {
+							res = true
+						}
+					case *ssa.MapUpdate:
+						if rooted(x.Map) {
+							res = true
+						}
+					case ssa.CallInstruction:
+						cc := x.Common()
+						if cal := staticCallee(cc); cal != nil && len(cc.Args) > 0 && cc.Args[0] == recv && cal != fn {
+							if cal.Pkg != nil && strings.HasPrefix(cal.Pkg.Pkg.Path(), ModPath) && mutates(cal) {
+								res = true
+							}
+						}
+					}
+				}
+			}
+			if res {
+				memo[fn] = 3
+			} else {
+				memo[fn] = 2
+			}
+			return res
+		}
+		for _, fn := range p.Funcs {
+			for _, b := range fn.Blocks {
+				for _, ins := range b.Instrs {
+					call, ok := ins.(ssa.CallInstruction)
+					if !ok {
+						continue
+					}
+					cc := call.Common()
+					cal := staticCallee(cc)
+					if cal == nil || len(cc.Args) == 0 || cal.Pkg == nil || !strings.HasPrefix(cal.Pkg.Pkg.Path(), ModPath) {
+						continue
+					}
+					ld, ok := cc.Args[0].(*ssa.UnOp)
+					if !ok || ld.Op != token.MUL {
+						// value may have been copied into a local first: x := global; x.M()
+						continue
+					}
+					g, ok := ld.X.(*ssa.Global)
+					if !ok || concurrencySafeType(g.Type().(*types.Pointer).Elem()) {
+						continue
+					}
+					if named, _ := cacheType(p); named != nil && namedOf(g.Type().(*types.Pointer).Elem()) == named {
+						continue
+					}
+					if mutates(cal) {
+						writes[g] = append(writes[g], gw{fn, call.Pos(), "mutates the object held in (" + fnName(cal) + ")"})
+					}
+				}
+			}
+		}
+		// the same through a local alias of the loaded global: x := *g ... x.M()
+		for _, fn := range p.Funcs {
+			for _, b := range fn.Blocks {
+				for _, ins := range b.Instrs {
+					ld, ok := ins.(*ssa.UnOp)
+					if !ok || ld.Op != token.MUL {
+						continue
+					}
+					g, ok := ld.X.(*ssa.Global)
+					if !ok || concurrencySafeType(g.Type().(*types.Pointer).Elem()) {
+						continue
+					}
+					for _, r := range refs(ld) {
+						call, ok := r.(ssa.CallInstruction)
+						if !ok {
+							continue
+						}
+						cc := call.Common()
+						cal := staticCallee(cc)
+						if cal == nil || len(cc.Args) == 0 || cc.Args[0] != ld || cal.Pkg == nil || !strings.HasPrefix(cal.Pkg.Pkg.Path(), ModPath) {
+							continue
+						}
+						if mutates(cal) {
+							writes[g] = append(writes[g], gw{fn, call.Pos(), "mutates the object held in (" + fnName(cal) + ")"})
 						}
 					}
 				}
@@ -465,6 +588,58 @@ func runC11Pool(c *Ctx, prop string) {
 	}
 }
 
+// runPoolReleaseLast: for every pool, an object handed to the pool's releaser by an ordinary
+// (non-deferred) call must not be used by anything reachable afterwards: from that moment another
+// goroutine — or the next call on this one — may own it. (A deferred release runs after the last
+// use by construction.) This covers the pooled builders as well as the pooled validators.
+func runPoolReleaseLast(c *Ctx, rule string) {
+	p := c.P
+	for _, pi := range findPools(p) {
+		rel := map[*ssa.Function]bool{}
+		for _, put := range pi.Puts {
+			rel[put.Parent()] = true
+		}
+		if len(rel) != 1 {
+			continue // reported by the one-releaser rule
+		}
+		var releaser *ssa.Function
+		for f := range rel {
+			releaser = f
+		}
+		if len(releaser.Params) == 0 {
+			continue
+		}
+		for _, fn := range p.Funcs {
+			if fn == releaser {
+				continue
+			}
+			for _, b := range fn.Blocks {
+				for idx, ins := range b.Instrs {
+					call, ok := ins.(*ssa.Call) // *ssa.Defer is a different instruction
+					if !ok || staticCallee(&call.Call) != releaser || len(call.Call.Args) == 0 {
+						continue
+					}
+					c.Sites++
+					obj := call.Call.Args[0]
+					var used []string
+					for _, later := range instrsReachableAfter(b, idx) {
+						if later == ins {
+							continue
+						}
+						for _, op := range later.Operands(nil) {
+							if op != nil && *op == obj {
+								used = append(used, p.Pos(instrPos(later)))
+							}
+						}
+					}
+					c.Check(len(used) == 0, rule, fnName(fn), "release-last:"+releaser.Name(), call.Pos(), "nothing uses the object after it was released",
+						"the object is still used at "+uniqJoin(used, 3)+" after it was returned to the pool by "+releaser.Name()+" (not deferred): the next Get — here or in another goroutine — shares it while this call keeps writing to it")
+				}
+			}
+		}
+	}
+}
+
 func runC12Cache(c *Ctx) {
 	sub := NewCtx("C08", c.P, c.Tier)
 	runC08(sub)
@@ -565,6 +740,14 @@ func runC12Unsafe(c *Ctx) {
 							case *ssa.MakeInterface:
 								bad = append(bad, "backing array boxed at "+p.Pos(x.Pos()))
 							}
+						}
+					}
+					// the bytes must belong to this call alone: every root of the converted slice is a
+					// fresh allocation of this function (make / array literal / nil), never a pooled,
+					// global, field or parameter buffer that some later call will write again
+					for _, rt := range sliceRoots(call.Call.Args[0]) {
+						if rt != "fresh" {
+							bad = append(bad, "the converted bytes come from "+rt+", a buffer that outlives this call (recycled or shared): the string handed out changes when the buffer is reused")
 						}
 					}
 					c.Check(len(bad) == 0, "C12-UNSAFE", fnName(fn), "bytes2str", call.Pos(),
@@ -738,6 +921,221 @@ func runC12Input(c *Ctx) {
 			}
 		}
 	}
+	// the library never writes a rule map itself: RM.Set / map updates on RM values are for the
+	// caller; inside package valid (setup paths such as SetRule included) a caller's RM is only
+	// stored and read — merging into it changes what the caller's next call validates with
+	if sp := p.Pkg("valid"); sp != nil {
+		for _, fn := range p.Funcs {
+			if fn.Pkg != sp || fromValid[fn] {
+				continue
+			}
+			if rn := recvNamed(fn); rn != nil && rn.Obj().Name() == "RM" {
+				continue // RM's own methods are the caller's API
+			}
+			if fn.Name() == "NewRule" {
+				continue
+			}
+			for _, b := range fn.Blocks {
+				for _, ins := range b.Instrs {
+					switch x := ins.(type) {
+					case *ssa.MapUpdate:
+						if isNamed(x.Map.Type(), ModPath+"/valid", "RM") {
+							if rmFromCaller(p, x.Map, 0) {
+								rm = append(rm, fnName(fn)+" updates a caller's rule map at "+p.Pos(x.Pos()))
+							}
+						}
+					case ssa.CallInstruction:
+						cc := x.Common()
+						if cal := staticCallee(cc); cal != nil && recvNamed(cal) != nil && recvNamed(cal).Obj().Name() == "RM" && cal.Name() == "Set" {
+							if rmFromCaller(p, cc.Args[0], 0) {
+								rm = append(rm, fnName(fn)+" calls RM.Set on a rule map it was given at "+p.Pos(x.Pos())+": the caller's map is modified")
+							}
+						}
+					}
+				}
+			}
+		}
+	}
 	sort.Strings(rm)
 	c.Check(len(rm) == 0, "C12-INPUT", "valid", "rule-map-readonly", token.NoPos, fmt.Sprintf("%d functions reachable from Valid, none writes a rule map", len(fromValid)), strings.Join(rm, "; "))
+}
+
+
+// sliceRoots: where the backing array of a slice value can come from, looking back through
+// reslicing, appends, phis and loads of local variable cells (closure-captured locals).
+func sliceRoots(v ssa.Value) []string {
+	out := map[string]bool{}
+	seen := map[ssa.Value]bool{}
+	var walk func(x ssa.Value, d int)
+	walk = func(x ssa.Value, d int) {
+		if x == nil || seen[x] {
+			return
+		}
+		seen[x] = true
+		if d > 12 {
+			out["an untraceable value"] = true
+			return
+		}
+		switch y := x.(type) {
+		case *ssa.Slice:
+			if al, ok := y.X.(*ssa.Alloc); ok {
+				if _, isArr := al.Type().(*types.Pointer).Elem().Underlying().(*types.Array); isArr {
+					out["fresh"] = true
+					return
+				}
+			}
+			walk(y.X, d+1)
+		case *ssa.MakeSlice:
+			out["fresh"] = true
+		case *ssa.Const:
+			out["fresh"] = true
+		case *ssa.Phi:
+			for _, e := range y.Edges {
+				walk(e, d+1)
+			}
+		case *ssa.ChangeType:
+			walk(y.X, d+1)
+		case *ssa.Call:
+			if calleeName(&y.Call) == "builtin.append" {
+				walk(y.Call.Args[0], d+1)
+				return
+			}
+			out["the result of "+calleeName(&y.Call)] = true
+		case *ssa.UnOp:
+			if y.Op != token.MUL {
+				out["an untraceable value"] = true
+				return
+			}
+			switch a := y.X.(type) {
+			case *ssa.Alloc:
+				// a local variable cell: everything stored into it
+				n := 0
+				for _, r := range refs(a) {
+					if st, ok := r.(*ssa.Store); ok && st.Addr == a {
+						n++
+						walk(st.Val, d+1)
+					}
+				}
+				// closures writing the captured cell
+				for _, r := range refs(a) {
+					if mc, ok := r.(*ssa.MakeClosure); ok {
+						_ = mc
+					}
+				}
+				if n == 0 {
+					out["an uninitialised local"] = true
+				}
+			case *ssa.FreeVar:
+				out["a variable captured from the enclosing function"] = true
+			case *ssa.Global:
+				out["the package-level variable "+a.Name()] = true
+			case *ssa.FieldAddr:
+				out["the field "+fieldAddrName(a)] = true
+			default:
+				// *ptr where ptr is e.g. the result of a pool Get
+				out["memory reached through a pointer ("+describePtr(y.X)+")"] = true
+			}
+		case *ssa.Parameter:
+			out["the parameter "+y.Name()] = true
+		default:
+			out[fmt.Sprintf("a %T", x)] = true
+		}
+	}
+	walk(v, 0)
+	var res []string
+	for k := range out {
+		res = append(res, k)
+	}
+	sort.Strings(res)
+	return res
+}
+
+func describePtr(v ssa.Value) string {
+	switch x := v.(type) {
+	case *ssa.TypeAssert:
+		if call, ok := x.X.(*ssa.Call); ok {
+			return "asserted out of " + calleeName(&call.Call)
+		}
+		return "type assertion"
+	case *ssa.Call:
+		return calleeName(&x.Call)
+	case *ssa.UnOp:
+		return "load of " + describePtr(x.X)
+	case *ssa.Alloc:
+		return "local " + x.Comment
+	}
+	return fmt.Sprintf("%T", v)
+}
+
+
+// rmFromCaller: can this rule-map value be one that a caller handed to the library (as opposed
+// to a map the library created itself with make / NewRule)? Fields are resolved through every
+// store to the same field anywhere in the program, map elements through every update of a map
+// of the same type.
+func rmFromCaller(p *Prog, v ssa.Value, depth int) bool {
+	if depth > 6 {
+		return true
+	}
+	switch x := v.(type) {
+	case *ssa.Parameter:
+		return true
+	case *ssa.MakeMap:
+		return false
+	case *ssa.Const:
+		return false
+	case *ssa.ChangeType:
+		return rmFromCaller(p, x.X, depth+1)
+	case *ssa.Call:
+		if cal := staticCallee(&x.Call); cal != nil && cal.Name() == "NewRule" {
+			return false
+		}
+		return true
+	case *ssa.Phi:
+		for _, e := range x.Edges {
+			if rmFromCaller(p, e, depth+1) {
+				return true
+			}
+		}
+		return false
+	case *ssa.Extract:
+		return rmFromCaller(p, x.Tuple, depth+1)
+	case *ssa.Lookup:
+		// element of a map: any update of a map of that type with a caller's value
+		for _, fn := range p.Funcs {
+			for _, b := range fn.Blocks {
+				for _, ins := range b.Instrs {
+					if mu, ok := ins.(*ssa.MapUpdate); ok && types.Identical(mu.Map.Type(), x.X.Type()) {
+						if rmFromCaller(p, mu.Value, depth+1) {
+							return true
+						}
+					}
+				}
+			}
+		}
+		return false
+	case *ssa.UnOp:
+		fa, ok := x.X.(*ssa.FieldAddr)
+		if !ok {
+			return true
+		}
+		for _, fn := range p.Funcs {
+			for _, b := range fn.Blocks {
+				for _, ins := range b.Instrs {
+					st, ok := ins.(*ssa.Store)
+					if !ok {
+						continue
+					}
+					fa2, ok := st.Addr.(*ssa.FieldAddr)
+					if !ok || fa2.Field != fa.Field || !types.Identical(fa2.X.Type(), fa.X.Type()) {
+						continue
+					}
+					if rmFromCaller(p, st.Val, depth+1) {
+						return true
+					}
+				}
+			}
+		}
+		return false
+	}
+	return true
 }
